@@ -103,6 +103,7 @@ impl Acc {
             .set("evaluations", J::i(self.evaluations))
             .set("distinct_nontrivial_local", J::i(self.nontrivial.len()))
             .set("nt_extra", J::i(self.nt_extra))
+            .set("nt_dropped_by_cap", J::i(self.nontrivial.len().saturating_sub(2_000_000)))
             .set("counters", J::Obj(self.counters.iter().map(|(k, v)| (k.clone(), J::i(*v))).collect()))
             .set("samples", J::Arr(self.samples.clone()))
             .set("violations", J::Arr(self.violations.clone()))
@@ -123,8 +124,10 @@ impl Acc {
             }
             let nt = out.with_extension("nt");
             if let Ok(mut f) = std::fs::File::create(&nt) {
-                let mut buf = Vec::with_capacity(self.nontrivial.len() * 8);
-                for h in &self.nontrivial { buf.extend_from_slice(&h.to_le_bytes()); }
+                // at most 2M hashes per shard are handed to the dispatcher (distinct_nontrivial is then a lower bound)
+                const CAP: usize = 2_000_000;
+                let mut buf = Vec::with_capacity(self.nontrivial.len().min(CAP) * 8);
+                for h in self.nontrivial.iter().take(CAP) { buf.extend_from_slice(&h.to_le_bytes()); }
                 let _ = f.write_all(&buf);
             }
         }
